@@ -153,7 +153,9 @@ let write_file path (bs : M.n list) =
 (* ---------- one case ---------- *)
 let run_case (lines : string list) =
   let obj : (int, M.state) Hashtbl.t = Hashtbl.create 4 in
-  let reg : (int, M.frame) Hashtbl.t = Hashtbl.create 4 in
+  let reg : (int, M.cframe) Hashtbl.t = Hashtbl.create 4 in
+  let heap = ref M.heap0 in
+  let rg j = try Hashtbl.find reg j with Not_found -> (let (h, r) = M.h_new !heap in heap := h; Hashtbl.replace reg j r; r) in
   let pp = ref (M.new_param [] []) in
   let o k = try Hashtbl.find obj k with Not_found -> raise No_object in
   let apply k (op : M.op) =
@@ -227,6 +229,29 @@ let run_case (lines : string list) =
          let k = tk_int tk in let n = tk_int tk in
          let fs = List.init n (fun _ -> read_frame_lit tk) in
          apply k (if cmd = "pointcol" then M.OPointCol fs else M.OAnalogCol fs)
+       (* ---- caller-side frames: handles into a heap (Heap.v) ---- *)
+       | "F.new" -> let j = tk_int tk in let (h, r) = M.h_new !heap in heap := h; Hashtbl.replace reg j r; pr "ok\n"
+       | "F.set" -> let j = tk_int tk in let f = read_frame_lit tk in ignore (rg j);
+         let (h, r) = M.h_set !heap f in heap := h; Hashtbl.replace reg j r; pr "ok\n"
+       | "F.copy" -> let j = tk_int tk in let i = tk_int tk in Hashtbl.replace reg j (rg i); pr "ok\n"
+       | "F.mutpt" -> let j = tk_int tk in let i = tk_u tk in let v = tk_flt tk in
+         on_outcome (M.h_mut_pt !heap (rg j) i v) (fun h -> heap := h; pr "ok\n")
+       | "F.addpt" -> let j = tk_int tk in let n = tk_str tk in let x = tk_flt tk in let y = tk_flt tk in let z = tk_flt tk in let r = tk_flt tk in
+         heap := M.h_add_pt !heap (rg j) (M.lit_point n x y z r); pr "ok\n"
+       | "F.mutch" -> let j = tk_int tk in let s = tk_u tk in let i = tk_u tk in let v = tk_flt tk in
+         on_outcome (M.h_mut_ch !heap (rg j) s i v) (fun h -> heap := h; pr "ok\n")
+       | "F.addch" -> let j = tk_int tk in let s = tk_u tk in let n = tk_str tk in let v = tk_flt tk in
+         on_outcome (M.h_add_ch !heap (rg j) s (M.lit_chan n v)) (fun h -> heap := h; pr "ok\n")
+       | "F.show" -> let j = tk_int tk in dump_frame (M.h_view !heap (rg j)) 0; pr "E\n"
+       | "frameR" -> let k = tk_int tk in let idx = tk_idx tk in let j = tk_int tk in apply k (M.OFrame (M.h_view !heap (rg j), idx))
+       | "pointcolR" | "analogcolR" ->
+         let k = tk_int tk in let n = tk_int tk in
+         let fs = List.init n (fun _ -> M.h_view !heap (rg (tk_int tk))) in
+         apply k (if cmd = "pointcolR" then M.OPointCol fs else M.OAnalogCol fs)
+       | "D.mutpt" -> let k = tk_int tk in let f = tk_u tk in let i = tk_u tk in let v = tk_flt tk in
+         on_outcome (M.d_mut_pt (o k) f i v) (fun s -> Hashtbl.replace obj k s; pr "ok\n")
+       | "D.mutch" -> let k = tk_int tk in let f = tk_u tk in let s = tk_u tk in let i = tk_u tk in let v = tk_flt tk in
+         on_outcome (M.d_mut_ch (o k) f s i v) (fun st -> Hashtbl.replace obj k st; pr "ok\n")
        (* ---- look-ups ---- *)
        | "get.frame" -> let k = tk_int tk in let i = tk_u tk in
          on_outcome (M.at_ (o k).M.frames i) (fun f -> pr "ok %d %d\n" (List.length f.M.fr_pts) (List.length f.M.fr_subs))
@@ -281,7 +306,7 @@ let run_case (lines : string list) =
        | _ -> raise (Script_error ("unknown-command " ^ cmd)))
        with No_object -> pr "noobj\n")
     end) lines;
-  ignore reg
+  ()
 
 let () =
   let cases = Sys.argv.(1) in
